@@ -169,6 +169,11 @@ func c16(r *core.Run) {
 			if fv, ok := c16ResolveFn(a); ok && fv.body != nil && fv.body.Parent() == in.Parent() && len(core.Instrs(fv.body, isExecute)) > 0 {
 				return fv.body
 			}
+			// a closure this function creates whose body has no lexical parent: the method value
+			// `x.m` of a new method, turned into a closure over the receiver's cells (variant 2)
+			if g := c16ClosureCreatedIn(a, in.Parent()); g != nil && len(core.Instrs(g, isExecute)) > 0 {
+				return g
+			}
 		}
 		return nil
 	}
@@ -671,16 +676,28 @@ func c16(r *core.Run) {
 			}
 			for _, c := range core.Instrs(f, runsExecute) {
 				// the value Execute is given, in the scope of f
-				inLit := func(lit, owner *ssa.Function) bool { // Execute in lit gets a parameter of owner that lit captured
+				// litParam: the parameter of owner that Execute, in the literal lit run at `at`, is given
+				// (lit captured it: lexically, or – a closure without a lexical parent – by the binding
+				// at its creation site in owner); -1: something else
+				litParam := func(lit, owner *ssa.Function, at ssa.Instruction, x ssa.Instruction) int {
+					arg := core.Args(core.AsCall(x))[1]
+					for i := range owner.Params {
+						if core.CapturedParam(owner, i)(arg) || core.CapturedParam(owner, i)(core.Forward(arg)) {
+							return i
+						}
+					}
+					if lit.Parent() == nil {
+						if k := c16CapturedParamAt(arg, owner, at); k >= 0 {
+							return k
+						}
+						return c16CapturedParamAt(core.Forward(arg), owner, at)
+					}
+					return -1
+				}
+				inLit := func(lit, owner *ssa.Function, at ssa.Instruction) bool { // Execute in lit gets a parameter of owner that lit captured
 					ok := len(core.Instrs(lit, isExecute)) > 0
 					for _, x := range core.Instrs(lit, isExecute) {
-						arg, given := core.Args(core.AsCall(x))[1], false
-						for i := range owner.Params {
-							if core.CapturedParam(owner, i)(arg) || core.CapturedParam(owner, i)(core.Forward(arg)) {
-								given = true
-							}
-						}
-						ok = ok && given
+						ok = ok && litParam(lit, owner, at, x) >= 0
 					}
 					return ok
 				}
@@ -699,19 +716,17 @@ func c16(r *core.Run) {
 				given := false
 				switch {
 				case execLit(c) != nil:
-					given = inLit(execLit(c), f)
+					given = inLit(execLit(c), f, c)
 				case execHelper(c) != nil:
 					g := execHelper(c)
 					given = true
 					for _, x := range core.Instrs(g, runsExecuteHere) {
 						k := -1
 						if lit := execLit(x); lit != nil {
-							if inLit(lit, g) {
-								for i := range g.Params {
-									for _, y := range core.Instrs(lit, isExecute) {
-										if a := core.Args(core.AsCall(y))[1]; core.CapturedParam(g, i)(a) || core.CapturedParam(g, i)(core.Forward(a)) {
-											k = i
-										}
+							if inLit(lit, g, x) {
+								for _, y := range core.Instrs(lit, isExecute) {
+									if i := litParam(lit, g, x, y); i >= 0 {
+										k = i
 									}
 								}
 							}
